@@ -103,9 +103,8 @@ Proof.
     unfold conserved. repeat constructor; rewrite T; lra.
 Qed.
 
-(* the same for the model's reb_simulation_remove_particle (with N_active), when no second particle is moved *)
+(* the same for the model's reb_simulation_remove_particle, for every value of N_active *)
 Theorem merge_total_model (flag : particle R -> particle R) t cb ps p1 p2 a b keep nact :
-  na_ok false keep nact ->
   zth ps p1 = Some a -> zth ps p2 = Some b -> p1 <> p2 -> plc a <> t -> plc b <> t -> pm a + pm b <> 0 ->
   exists ps' ps'' nact',
     fst (merge RNum t cb ps p1 p2) = ps' /\
@@ -113,10 +112,10 @@ Theorem merge_total_model (flag : particle R -> particle R) t cb ps p1 p2 a b ke
     S (length ps'') = length ps /\
     Forall (fun f => tot f ps'' = tot f ps) conserved.
 Proof.
-  intros Hok Z1 Z2 Hne La Lb Hm.
+  intros Z1 Z2 Hne La Lb Hm.
   destruct (merge_total flag t cb ps p1 p2 a b keep Z1 Z2 Hne La Lb Hm) as (ps' & ps'' & E1 & E2 & E3 & E4).
   destruct (remove_particle flag false keep nact ps' (gone_ix p1 p2)) as [[x n'] c] eqn:E.
-  destruct (remove_particle_is_na flag _ _ _ _ _ _ _ _ Hok E) as [E' _].
+  pose proof (remove_particle_is_na flag _ _ _ _ _ _ _ _ E) as E'.
   rewrite E2 in E'. injection E' as <- <-.
   exists ps', ps'', n'. auto.
 Qed.
